@@ -116,6 +116,10 @@ ALL_FEATURES = [
                             # base type, in different globals
     "enum_compare",         # == / != between values of enums with several different payload types,
                             # of optionals and of error unions
+    "generic_enum_bases",   # a generic enum whose discriminants come from a comptime value parameter,
+                            # instantiated twice with the same payload type and different bases;
+                            # rarely (and on purpose) a function that mixes variants of the two -
+                            # an ill-typed program that no order may accept
     "indirect_refs",        # variants may name a definition of another file *through a third file*:
                             # imp1.imp2.name
 ]
@@ -2292,6 +2296,44 @@ class _Gen:
         self.p.add(it)
         self.int_fns.append(name)
 
+    def mk_generic_enum_base(self):
+        r = self.rnd
+        if not getattr(self, "level_fn", None):
+            lv = self.fresh("Level")
+            it = Item(lv, "type_fn")
+            it.is_function = True
+            it.render = lambda ref: ("%s :: (comptime T: type, comptime base: u8) -> type {\n"
+                                     "    enum { Low: T | base, Mid, High }\n}") % lv
+            self.p.add(it)
+            self.level_fn = lv
+            self.level_insts = []
+            t = r.choice(["i64", "i32", "u8"])
+            for base in r.sample([1, 10, 20, 40], 2):
+                name = self.fresh("LV")
+                iit = Item(name, "type_inst")
+                iit.deps.add(lv)
+                iit.render = (lambda ref, name=name, base=base: "%s :: comptime %s(%s, %d);" % (name, ref(lv), t, base))
+                self.p.add(iit)
+                self.level_insts.append(name)
+            return
+        a, b = r.sample(self.level_insts, 2)
+        mixed = r.random() < 0.25 and not getattr(self, "have_mixed", False)
+        if mixed:
+            self.have_mixed = True
+        other = b if mixed else a
+        name = self.fresh("lv")
+        it = Item(name, "fn")
+        it.is_function = True
+        it.deps |= {a, other}
+        it.render = lambda ref: (
+            "%s :: (x: i64) -> i64 {\n    v : %s = if x %% 2 == 0 { %s.Mid } else { %s.High };\n"
+            "    switch w in v {\n        .Low => 1,\n        .Mid => 50,\n        .High => 100,\n    }\n}"
+            % (name, ref(a), ref(a), ref(other)))
+        a1 = r.randint(0, 9)
+        it.uses = lambda ref, tmp: ["emit(%s(%d));" % (ref(name), a1), "emit(%s(%d));" % (ref(name), a1 + 1)]
+        self.p.add(it)
+        self.int_fns.append(name)
+
     def build(self):
         self.add_prelude()
         r = self.rnd
@@ -2397,6 +2439,8 @@ class _Gen:
             menu.append(("distinct_generic", self.mk_distinct_generic, 1))
         if "enum_compare" in f:
             menu.append(("enum_compare", self.mk_enum_compare, 2))
+        if "generic_enum_bases" in f:
+            menu.append(("generic_enum_base", self.mk_generic_enum_base, 2))
         if "untyped_consts" in f:
             menu.append(("untyped_const", self.mk_untyped_const, 2))
         if "const_arrays" in f:
